@@ -798,6 +798,8 @@ func runC10PerObjectErrors(c *Ctx) {
 					}
 				case *ssa.MakeInterface:
 					walk(x.X, d)
+				case *ssa.ChangeInterface:
+					walk(x.X, d)
 				case *ssa.UnOp:
 					if a, isA := x.X.(*ssa.Alloc); isA {
 						for _, sv := range storedValues(a) {
